@@ -401,7 +401,9 @@ func (s *Stream) reset() error {
 // and reuse the last share memory buffer slice of read buffer for next write by Stream.BufferWriter()
 func (s *Stream) ReleaseReadAndReuse() {
 	s.recvBuf.releasePreviousReadAndReserve()
-	if s.recvBuf.len == 0 && s.recvBuf.sliceList.size() == 1 {
+	// the buffers are only swapped when there is nothing in the send buffer: otherwise data that was written but
+	// not flushed yet would turn up as received data (and be lost for the peer)
+	if s.recvBuf.len == 0 && s.recvBuf.sliceList.size() == 1 && s.sendBuf.Len() == 0 && s.sendBuf.sliceList.size() == 0 {
 		s.recvBuf, s.sendBuf = s.sendBuf, s.recvBuf
 	}
 }
